@@ -11,6 +11,7 @@ import (
 	"reflect"
 	"regexp"
 	"sort"
+	"strconv"
 	"strings"
 
 	"go.flow.arcalot.io/pluginsdk/schema"
@@ -103,6 +104,39 @@ type zmDup struct {
 	Z int64 `json:"Y"`
 }
 
+// members of one-ofs: two plain shapes, and two pairs whose `kind` field carries an INLINED
+// discriminator (int and string keyed), as in typed.go's tyStop / tyGo
+type zmCircle struct {
+	R     int64    `json:"r"`
+	Tags  []string `json:"tags"`
+	Label *string  `json:"label"`
+}
+
+type zmSquare struct {
+	S    int64  `json:"s"`
+	Port uint16 `json:"port"`
+}
+
+type zmStop struct {
+	Kind   int64  `json:"kind"`
+	Reason string `json:"reason"`
+}
+
+type zmGo struct {
+	Kind  int64  `json:"kind"`
+	Speed *int64 `json:"speed"`
+}
+
+type zmStopS struct {
+	Kind   string `json:"kind"`
+	Reason string `json:"reason"`
+}
+
+type zmGoS struct {
+	Kind  string `json:"kind"`
+	Speed int64  `json:"speed"`
+}
+
 type zmType struct {
 	rt    reflect.Type
 	build func(id string, props map[string]*schema.PropertySchema, ptr bool) *schema.ObjectSchema
@@ -181,7 +215,11 @@ func zmReg[T any]() *zmType {
 	}
 }
 
-var zmTypes = []*zmType{zmReg[zmTop](), zmReg[zmMid](), zmReg[zmInner](), zmReg[zmVals](), zmReg[zmPtrs](), zmReg[zmDup]()}
+var zmTypes = []*zmType{zmReg[zmTop](), zmReg[zmMid](), zmReg[zmInner](), zmReg[zmVals](), zmReg[zmPtrs](), zmReg[zmDup](),
+	zmReg[zmCircle](), zmReg[zmSquare](), zmReg[zmStop](), zmReg[zmGo](), zmReg[zmStopS](), zmReg[zmGoS]()}
+
+// zmRoots: the first six are used as roots of generated groups
+const zmRoots = 6
 
 func zmLookup(rt reflect.Type) *zmType {
 	for _, z := range zmTypes {
@@ -270,6 +308,29 @@ type sTy struct {
 	PtrT  bool         `json:"ptrT,omitempty"`
 	St    *sStruct     `json:"st,omitempty"`
 	Props []sNamedProp `json:"props,omitempty"`
+	// one-of over struct-mapped members
+	IntKey  bool      `json:"intKey,omitempty"`
+	Disc    string    `json:"disc,omitempty"`
+	Inlined bool      `json:"inlined,omitempty"`
+	Members []sMember `json:"members,omitempty"`
+}
+
+type sMember struct {
+	Key string // decimal for int keys
+	Ty  *sTy
+}
+
+func (m sMember) MarshalJSON() ([]byte, error) { return json.Marshal([]any{m.Key, m.Ty}) }
+func (m *sMember) UnmarshalJSON(b []byte) error {
+	var raw []json.RawMessage
+	if err := json.Unmarshal(b, &raw); err != nil || len(raw) != 2 {
+		return fmt.Errorf("bad one-of member")
+	}
+	if err := json.Unmarshal(raw[0], &m.Key); err != nil {
+		return err
+	}
+	m.Ty = &sTy{}
+	return json.Unmarshal(raw[1], m.Ty)
 }
 
 func goTyOf(rt reflect.Type) *sGoTy {
@@ -509,6 +570,18 @@ func decInto(rv reflect.Value, v *hx.Val) error {
 		}
 		return fmt.Errorf("cannot place %s into %s", v.Kind, rt)
 	}
+	if rt.Kind() == reflect.Interface {
+		x, err := decTop(v)
+		if err != nil {
+			return err
+		}
+		if x == nil {
+			rv.Set(reflect.Zero(rt))
+		} else {
+			rv.Set(reflect.ValueOf(x))
+		}
+		return nil
+	}
 	switch {
 	case v.MK == "nilptr" || v.MK == "nilslice" || strings.HasPrefix(v.MK, "nilmap:"):
 		rv.Set(reflect.Zero(rt))
@@ -646,6 +719,23 @@ func buildSM(t *sTy, mode int) smBuilt {
 				return schema.NewScopeSchema(o)
 			}
 			return inner
+		case "oneOf":
+			if t.IntKey {
+				members := map[int64]schema.Object{}
+				for _, m := range t.Members {
+					n, err := strconv.ParseInt(m.Key, 10, 64)
+					if err != nil {
+						panic(err)
+					}
+					members[n] = build(m.Ty, false).(schema.Object)
+				}
+				return schema.NewOneOfIntSchema[any](members, t.Disc, t.Inlined)
+			}
+			members := map[string]schema.Object{}
+			for _, m := range t.Members {
+				members[m.Key] = build(m.Ty, false).(schema.Object)
+			}
+			return schema.NewOneOfStringSchema[any](members, t.Disc, t.Inlined)
 		case "sobj":
 			z := zmByName(t.St.Name)
 			o := z.build(t.ID, buildProps(t), t.PtrT)
@@ -785,6 +875,9 @@ func (q *smGen) schemaFor(ft reflect.Type, depth int) *sTy {
 	case reflect.Float32, reflect.Float64:
 		return q.leaf(q.scalarOf("float"))
 	case reflect.Interface:
+		if depth < 2 && q.p(0.4) {
+			return q.oneOf(depth)
+		}
 		if q.faithful || q.p(0.6) {
 			return q.leaf(&hx.Ty{T: "any"})
 		}
@@ -837,6 +930,109 @@ func (q *smGen) schemaFor(ft reflect.Type, depth int) *sTy {
 		return q.schemaFor(ft.Elem(), depth)
 	}
 	return q.leaf(&hx.Ty{T: "any"})
+}
+
+// oneOf generates a one-of over struct-mapped members: string or int keys, separate or inlined
+// discriminator (the inlined one is the members' `kind` field, treat-empty-as-default half of the time:
+// the member keyed by the zero value then serializes without it and the one-of puts it back; required
+// a quarter of the time). Members
+// may be wrapped in scopes. Outside the faithful mode two members occasionally share a struct type:
+// findUnderlyingType then picks one by map order, which the runs on fresh instances expose.
+func (q *smGen) oneOf(depth int) *sTy {
+	t := &sTy{T: "oneOf", IntKey: q.p(0.5), Inlined: q.p(0.45)}
+	q.stats["oneof:total"]++
+	var pool []reflect.Type
+	var keys []string
+	if t.Inlined {
+		t.Disc = "kind"
+		q.stats["oneof:inlined"]++
+		if t.IntKey {
+			pool = []reflect.Type{reflect.TypeOf(zmStop{}), reflect.TypeOf(zmGo{})}
+		} else {
+			pool = []reflect.Type{reflect.TypeOf(zmStopS{}), reflect.TypeOf(zmGoS{})}
+		}
+	} else {
+		t.Disc = []string{"kind", "type", "_t"}[q.g.R.Intn(3)]
+		q.stats["oneof:separate"]++
+		pool = []reflect.Type{reflect.TypeOf(zmCircle{}), reflect.TypeOf(zmSquare{}), reflect.TypeOf(zmInner{}),
+			reflect.TypeOf(zmStop{}), reflect.TypeOf(zmGoS{})}
+		q.g.R.Shuffle(len(pool), func(i, j int) { pool[i], pool[j] = pool[j], pool[i] })
+		pool = pool[:2+q.g.R.Intn(2)]
+	}
+	if t.IntKey {
+		keys = []string{"0", "1", "7", "-2"}
+		q.stats["oneof:int-keys"]++
+	} else {
+		keys = []string{"", "go", "c", "5"}
+		q.stats["oneof:string-keys"]++
+	}
+	if !q.faithful && !t.Inlined && q.p(0.08) {
+		pool = append(pool, pool[0]) // two keys, one struct type
+		q.stats["oneof:shared-member-type"]++
+		q.illFormed["oneof-shared-type"] = true
+	}
+	for i, rt := range pool {
+		key := keys[i]
+		faithfulSave := q.faithful
+		m := q.object(zmLookup(rt), depth+2, false)
+		q.faithful = faithfulSave
+		// the discriminator property: absent when separate, present with a type of the key kind when inlined
+		props := m.Props[:0]
+		for _, np := range m.Props {
+			// (an inlined member gets its own discriminator property below; a second property on the
+			// same field - `Kind` by name, `kind` by tag - would make the pair ill-formed)
+			if np.Name != t.Disc && !(t.Inlined && strings.EqualFold(np.Name, t.Disc)) {
+				props = append(props, np)
+			}
+		}
+		m.Props = props
+		for _, np := range m.Props {
+			np.P.RequiredIf, np.P.RequiredIfNot, np.P.Conflicts = smDrop(np.P.RequiredIf, t.Disc), smDrop(np.P.RequiredIfNot, t.Disc), smDrop(np.P.Conflicts, t.Disc)
+			if t.Inlined {
+				np.P.RequiredIf, np.P.RequiredIfNot, np.P.Conflicts = smDrop(np.P.RequiredIf, "Kind"), smDrop(np.P.RequiredIfNot, "Kind"), smDrop(np.P.Conflicts, "Kind")
+			}
+		}
+		if t.Inlined {
+			var dty *hx.Ty
+			switch {
+			case t.IntKey && q.p(0.5):
+				dty = &hx.Ty{T: "enumInt", Vals: []string{key}}
+			case t.IntKey:
+				dty = &hx.Ty{T: "int"}
+			case q.p(0.5):
+				dty = &hx.Ty{T: "enumStr", Vals: []string{key}}
+			default:
+				dty = &hx.Ty{T: "str"}
+			}
+			dp := &sProp{Ty: q.leaf(dty)}
+			if q.p(0.5) {
+				dp.EmptyIsDefault = true
+				q.stats["oneof:inlined-empty-is-default"]++
+			} else if q.p(0.5) || (q.faithful && (dty.T == "enumInt" || dty.T == "enumStr") && key != "0" && key != "") {
+				// (an optional enum that excludes the zero value on a plain field is the recorded finding
+				// struct-optional-bounded-zero-value: outside the faithful mode only)
+				dp.Required = true
+				q.stats["oneof:inlined-required-discriminator"]++
+			}
+			m.Props = append(m.Props, sNamedProp{Name: t.Disc, P: dp})
+		}
+		var mt *sTy = m
+		if q.p(0.15) {
+			mt = &sTy{T: "scope", Inner: m}
+		}
+		t.Members = append(t.Members, sMember{Key: key, Ty: mt})
+	}
+	return t
+}
+
+func smDrop(l []string, x string) []string {
+	var out []string
+	for _, e := range l {
+		if e != x {
+			out = append(out, e)
+		}
+	}
+	return out
 }
 
 // jsonDefault renders a JSON object text for a struct-mapped sub-object from its properties' own
@@ -1174,6 +1370,51 @@ func (q *smGen) raw(t *sTy, depth int) *hx.Val {
 		return out
 	case "scope":
 		return q.raw(t.Inner, depth)
+	case "oneOf":
+		mb := t.Members[q.g.R.Intn(len(t.Members))]
+		m := q.raw(mb.Ty, depth+1)
+		if m.Kind != "m" || (m.MK != "string" && m.MK != "any") {
+			m = hx.StrAny()
+		}
+		kept := m.M[:0]
+		for _, kv := range m.M {
+			if !(kv[0].Kind == "s" && kv[0].S == t.Disc) {
+				kept = append(kept, kv)
+			}
+		}
+		m.M = kept
+		var d *hx.Val
+		if t.IntKey {
+			n, _ := strconv.ParseInt(mb.Key, 10, 64)
+			switch q.g.R.Intn(4) {
+			case 0:
+				d = hx.Int("int64", n)
+			case 1:
+				d = hx.Int("int", n)
+			case 2:
+				d = hx.Str(mb.Key)
+			default:
+				d = hx.F64(float64(n))
+			}
+		} else {
+			d = hx.Str(mb.Key)
+			if q.p(0.15) {
+				if n, err := strconv.ParseInt(mb.Key, 10, 64); err == nil {
+					d = hx.Int("int64", n) // the string mapper accepts integers
+				}
+			}
+		}
+		switch {
+		case q.p(0.04):
+			q.stats["input:oneof-no-discriminator"]++
+		case q.p(0.04):
+			q.stats["input:oneof-unknown-key"]++
+			m.M = append(m.M, [2]*hx.Val{hx.Str(t.Disc), hx.Str("no such member")})
+		default:
+			m.M = append(m.M, [2]*hx.Val{hx.Str(t.Disc), d})
+		}
+		q.g.R.Shuffle(len(m.M), func(i, j int) { m.M[i], m.M[j] = m.M[j], m.M[i] })
+		return m
 	}
 	// sobj
 	if len(t.Props) == 1 && q.p(0.15) {
@@ -1336,7 +1577,22 @@ func (q *smGen) mutate(rv reflect.Value, depth int) {
 	case reflect.Float32, reflect.Float64:
 		rv.SetFloat([]float64{0, math.Copysign(0, -1), 1.5, -2, 0.1}[q.g.R.Intn(5)])
 	case reflect.Interface:
-		switch q.g.R.Intn(5) {
+		switch q.g.R.Intn(9) {
+		case 5:
+			rv.Set(reflect.ValueOf(zmCircle{R: int64(q.g.R.Intn(3))}))
+		case 6:
+			rv.Set(reflect.ValueOf(zmStop{Kind: int64(q.g.R.Intn(3)), Reason: "r"}))
+		case 7:
+			rv.Set(reflect.ValueOf(zmGoS{Kind: []string{"", "go", "zz"}[q.g.R.Intn(3)]}))
+		case 8:
+			if !rv.IsNil() && (rv.Elem().Kind() == reflect.Struct) {
+				cp := reflect.New(rv.Elem().Type()).Elem()
+				cp.Set(rv.Elem())
+				q.mutate(cp, depth+1)
+				rv.Set(cp)
+			} else {
+				rv.Set(reflect.ValueOf(&zmSquare{S: 2}))
+			}
 		case 0:
 			rv.Set(reflect.Zero(rt))
 		case 1:
@@ -1415,6 +1671,9 @@ func smExt(t *sTy, vs ...*hx.Val) *hx.Ext {
 		walk(t.Item)
 		walk(t.V)
 		walk(t.Inner)
+		for _, m := range t.Members {
+			walk(m.Ty)
+		}
 		for _, np := range t.Props {
 			walk(np.P.Ty)
 			if np.P.Default != nil {
@@ -1538,7 +1797,7 @@ func groupStructModel(s *sink, g *hx.Gen, q *smGen) {
 		s.stats["structmodel:faithful-pair (scope of the end-to-end theorem)"]++
 	}
 	r := &smRunner{s: s, q: q}
-	z := zmTypes[g.R.Intn(len(zmTypes))]
+	z := zmTypes[g.R.Intn(zmRoots)]
 	if g.R.Intn(3) == 0 {
 		z = zmTypes[0]
 	}
@@ -1547,6 +1806,12 @@ func groupStructModel(s *sink, g *hx.Gen, q *smGen) {
 	mode := g.R.Intn(3)
 	if !ptrT && q.p(0.3) {
 		mode = 3 + g.R.Intn(3)
+	}
+	if q.p(0.1) {
+		// a one-of as the root schema (bare: it has no scope of its own)
+		t = q.oneOf(0)
+		mode = 0
+		s.stats["structmodel:one-of-root"]++
 	}
 	if mode == 1 || mode == 2 || mode == 5 {
 		t = &sTy{T: "scope", Inner: t}
@@ -1697,6 +1962,11 @@ func smHasEmpty(t *sTy) bool {
 	if smHasEmpty(t.Item) || smHasEmpty(t.V) || smHasEmpty(t.Inner) {
 		return true
 	}
+	for _, m := range t.Members {
+		if smHasEmpty(m.Ty) {
+			return true
+		}
+	}
 	for _, np := range t.Props {
 		if np.P.EmptyIsDefault || smHasEmpty(np.P.Ty) {
 			return true
@@ -1714,6 +1984,11 @@ func smHasScopeInside(t *sTy) bool {
 	}
 	if smHasScopeInside(t.Item) || smHasScopeInside(t.V) || smHasScopeInside(t.Inner) {
 		return true
+	}
+	for _, m := range t.Members {
+		if smHasScopeInside(m.Ty) {
+			return true
+		}
 	}
 	for _, np := range t.Props {
 		if smHasScopeInside(np.P.Ty) {
@@ -1919,6 +2194,62 @@ func smFixed(s *sink, g *hx.Gen, q *smGen) {
 			obj(reflect.TypeOf(zmInner{}), false, np("p", &sProp{Ty: str(), EmptyIsDefault: true}), np("level", &sProp{Ty: intT(), RequiredIfNot: []string{"p"}})),
 			[]*hx.Val{hx.StrAny([2]*hx.Val{hx.Str("p"), hx.Str("")}), hx.StrAny([2]*hx.Val{hx.Str("p"), hx.Str("v")})}},
 	}
+	// one-ofs over struct-mapped members
+	kv := func(k string, v *hx.Val) [2]*hx.Val { return [2]*hx.Val{hx.Str(k), v} }
+	oneOf := func(intKey bool, disc string, inlined bool, ms ...sMember) *sTy {
+		return &sTy{T: "oneOf", IntKey: intKey, Disc: disc, Inlined: inlined, Members: ms}
+	}
+	kindInt := func(eid bool) sNamedProp { return np("kind", &sProp{Ty: intT(), EmptyIsDefault: eid}) }
+	kindStr := func(eid bool) sNamedProp { return np("kind", &sProp{Ty: str(), EmptyIsDefault: eid}) }
+	signal := func(eid bool) *sTy {
+		return oneOf(true, "kind", true,
+			sMember{Key: "0", Ty: obj(reflect.TypeOf(zmStop{}), false, kindInt(eid), np("reason", &sProp{Ty: str()}))},
+			sMember{Key: "1", Ty: obj(reflect.TypeOf(zmGo{}), false, kindInt(eid), np("speed", &sProp{Ty: intT()}))})
+	}
+	signalS := func(eid bool) *sTy {
+		return oneOf(false, "kind", true,
+			sMember{Key: "", Ty: obj(reflect.TypeOf(zmStopS{}), false, kindStr(eid), np("reason", &sProp{Ty: str()}))},
+			sMember{Key: "go", Ty: &sTy{T: "scope", Inner: obj(reflect.TypeOf(zmGoS{}), false, kindStr(eid), np("speed", &sProp{Ty: intT()}))}})
+	}
+	circle := func() *sTy {
+		return obj(reflect.TypeOf(zmCircle{}), false, np("r", &sProp{Ty: intT(), Required: true}), np("label", &sProp{Ty: str()}))
+	}
+	square := func() *sTy { return obj(reflect.TypeOf(zmSquare{}), false, np("s", &sProp{Ty: intT(), Required: true})) }
+	signalRaws := []*hx.Val{
+		hx.StrAny(kv("kind", hx.Str("0")), kv("reason", hx.Str("r"))),
+		hx.StrAny(kv("kind", hx.Int("int64", 0))),
+		hx.StrAny(kv("kind", hx.Int("int64", 1)), kv("speed", hx.Int("int64", 7))),
+		hx.StrAny(kv("kind", hx.Int("int64", 1)), kv("reason", hx.Str("r"))),
+		hx.StrAny(kv("kind", hx.Int("int64", 2))),
+		hx.StrAny(kv("reason", hx.Str("r"))),
+	}
+	signalSRaws := []*hx.Val{
+		hx.StrAny(kv("kind", hx.Str("")), kv("reason", hx.Str("r"))),
+		hx.StrAny(kv("kind", hx.Str("go")), kv("speed", hx.Int("int64", 7))),
+		hx.StrAny(kv("kind", hx.Str("stop"))),
+		hx.StrAny(kv("speed", hx.Int("int64", 7))),
+	}
+	cases = append(cases,
+		fx{"one-of, inlined int discriminator, treat-empty-as-default: member 0 drops it, the one-of puts it back", signal(true), signalRaws},
+		fx{"one-of, inlined int discriminator kept by the members", signal(false), signalRaws},
+		fx{"one-of, inlined string discriminator, treat-empty-as-default: the member keyed \"\" drops it", signalS(true), signalSRaws},
+		fx{"one-of, inlined string discriminator kept by the members", signalS(false), signalSRaws},
+		fx{"one-of, separate discriminator: Serialize attaches the key of the member found by the struct's type",
+			oneOf(false, "_type", false, sMember{Key: "circle", Ty: circle()}, sMember{Key: "square", Ty: &sTy{T: "scope", Inner: square()}}),
+			[]*hx.Val{
+				hx.StrAny(kv("_type", hx.Str("circle")), kv("r", hx.Int("int64", 2)), kv("label", hx.Str("l"))),
+				hx.StrAny(kv("_type", hx.Str("square")), kv("s", hx.Str("3"))),
+				hx.StrAny(kv("_type", hx.Str("square")), kv("r", hx.Int("int64", 2))),
+				hx.StrAny(kv("r", hx.Int("int64", 2))),
+			}},
+		fx{"one-of in an interface field of a struct-mapped object",
+			obj(reflect.TypeOf(zmMid{}), false, np("any", &sProp{Ty: oneOf(true, "t", false, sMember{Key: "7", Ty: circle()}, sMember{Key: "-2", Ty: square()})})),
+			[]*hx.Val{
+				hx.StrAny(kv("any", hx.StrAny(kv("t", hx.Str("-2")), kv("s", hx.Int("int64", 1))))),
+				hx.StrAny(kv("any", hx.StrAny(kv("t", hx.Int("int64", 7)), kv("r", hx.Int("int64", 1))))),
+				hx.StrAny(),
+			}},
+	)
 	for _, c := range cases {
 		q.illFormed = map[string]bool{"fixed": true}
 		for _, raw := range c.raws {
@@ -1930,11 +2261,36 @@ func smFixed(s *sink, g *hx.Gen, q *smGen) {
 			r.emit(c.t, 0, "SMV", x, xe, "path", "fixed: "+c.name, 6)
 			sres, w, ok := r.emit(c.t, 0, "SMS", x, xe, "path", "fixed: "+c.name, 6)
 			if ok && sres.R == "ok" {
-				r.emit(c.t, 0, "SMU", w, hx.Enc(w), "path", "fixed: "+c.name, 6)
+				res2, x2, ok2 := r.emit(c.t, 0, "SMU", w, hx.Enc(w), "path", "fixed: "+c.name, 6)
+				if ok2 && res2.R == "ok" {
+					r.emit(c.t, 0, "SMS", x2, encAny(x2), "path", "fixed: "+c.name, 6)
+				}
 			}
 		}
 	}
 	s.stats["structmodel:fixed-groups"] += len(cases)
+	// two keys for one struct type: which discriminator Serialize attaches depends on the iteration
+	// order of the members map (findUnderlyingType keeps the last match) - observed, not compared
+	twins := oneOf(false, "_type", false, sMember{Key: "a", Ty: circle()}, sMember{Key: "b", Ty: circle()})
+	seen := map[string]bool{}
+	for i := 0; i < 64; i++ {
+		b := buildSM(twins, 0)
+		x, err := b.ops.u(map[string]any{"_type": "a", "r": int64(2)})
+		if err != nil {
+			continue
+		}
+		if w, err := b.ops.s(x); err == nil {
+			if m, ok := w.(map[string]any); ok {
+				seen[fmt.Sprint(m["_type"])] = true
+			}
+		}
+	}
+	var ds []string
+	for d := range seen {
+		ds = append(ds, d)
+	}
+	sort.Strings(ds)
+	s.stats["structmodel:shared-member-type: input _type=a serialized with _type="+strings.Join(ds, "|")+" (64 runs)"]++
 }
 
 // ---------------------------------------------------------------------------------------------
